@@ -236,7 +236,28 @@ func eachSameConn(emit func(xferCase)) {
 	}
 }
 
+// eachPaced: transfers that last longer than ReadTimeout although no envelope is late: a slow steady
+// sender, and a slow consumer of the envelope channel (real time; kept to a handful of cases).
+func eachPaced(emit func(xferCase)) {
+	one := func(n int) []int {
+		s := make([]int, n)
+		for i := range s {
+			s[i] = 1
+		}
+		return s
+	}
+	a := xferCase{Mode: "axfr", Zone: "example.", QID: 4660, Serial: 7, Recs: bodyRecs(3), Sender: "harness", Sizes: one(5), ReadTimeoutMs: 300, PaceMs: 100}
+	emit(a)
+	i := xferCase{Mode: "ixfr", Zone: "example.", QID: 4660, QSerial: 5, Serial: 7, Sender: "harness", Tsig: enumKey,
+		Diffs: []diffSpec{{From: 5, To: 7, Del: bodyRecs(1), Add: bodyRecs(1)}}, Sizes: one(6), ReadTimeoutMs: 300, PaceMs: 80}
+	emit(i)
+	s := a
+	s.PaceMs, s.ConsumerMs, s.Tsig = 0, 100, enumKey
+	emit(s)
+}
+
 func init() {
+	pbt.RegisterEnum(pbt.Enum[xferCase]{Name: "paced", Each: eachPaced, Check: checkXfer})
 	pbt.RegisterEnum(pbt.Enum[xferCase]{Name: "exact-size", Each: eachExactSize, Check: checkXfer})
 	pbt.RegisterEnum(pbt.Enum[xferCase]{Name: "same-connection", Each: eachSameConn, Check: checkXfer})
 	pbt.RegisterEnum(pbt.Enum[xferCase]{Name: "stall", Each: eachStall, Check: checkXfer})
